@@ -314,10 +314,16 @@ def run_shard(spec, tier, seed):
                 store = I.InputStore(cp)
                 answered = []
 
-                def prompt(missing, needed_by, _s=s, _mode=mode):
+                def prompt(missing, needed_by, _s=s, _mode=mode, _it=itype):
                     if _mode == 'prompt' and missing.valid(_s):
                         answered.append(missing.name())
                         return _s, True
+                    if _mode == 'file' and missing.name() == f'c11.{_it}':
+                        # the input IS in the file: being asked for it at all is wrong; answer validly to expose an overwrite
+                        good = [x for x in SEEDS[_it] if model(_it, x)[0] == 'value' and missing.valid(x)]
+                        if good:
+                            answered.append(missing.name())
+                            return good[0], True
                     return None, False
                 with trace.Tracer() as t:
                     sv = S.Solver(store, [cls], prompt=prompt)
@@ -347,6 +353,23 @@ def run_shard(spec, tier, seed):
                 if mode == 'prompt' and not answered:
                     provided_expected = False
                 v = judge(itype, raw if raw is not None else s, provided, outcome, value, inp, I)
+                inv = [e for e in reads if e[2] == 'invalid']
+                if v is None and inv:
+                    # rejected text must be *reported as invalid* by the solve, not as missing, and never re-asked or overwritten
+                    res.count('invalid_reports_checked')
+                    raw = inv[0][5]
+                    after = drive.final_inputs(cp).get(f'c11.{itype}')
+                    if not isinstance(exc, I.InvalidInput):
+                        how = f'solve() returned {ret!r}' if exc is None else f'{type(exc).__name__}'
+                        listed = ''
+                        if exc is None:
+                            try:
+                                listed = ' and lists it as an unsupplied input' if key in sv.unmet_input_dependencies() else ''
+                            except Exception:
+                                pass
+                        v = ('invalid-input-not-reported-invalid', f'{itype}: the file holds {raw!r} (rejected by the validator) but {how}{listed}')
+                    elif after != raw:
+                        v = ('invalid-input-overwritten', f'{itype}: the rejected text {raw!r} was replaced by {after!r}')
                 res.distinct.add(f'{itype}|{mode}|{sclass(s)}|{outcome}')
                 if v:
                     cl = '' if v[0] == 'non-finite-number-accepted' else '|' + sclass(s)
